@@ -274,27 +274,27 @@ def toUnsigned {k : Nat} (N : Nat) (ws : Words k) : Option (Except Err Nat) :=
       .ok r.toNat)
   else Option.none
 
-/-- the loop of `bitset(basic_string_view str, pos, n, zero, one)`: character `pos + m - 1 - i`
+/-- the loop of `bitset(basic_string_view str, pos, n, zero, one)`: character `pos + len - 1 - i`
     decides bit `i`; first argument = iterations left -/
-def fromStringLoop {k : Nat} (N : Nat) (str : List Nat) (pos m zeroCh oneCh : Nat) :
+def fromStringLoop {k : Nat} (N : Nat) (str : List Nat) (pos len zeroCh oneCh : Nat) :
     Nat → Nat → Words k → Except Err (Words k)
   | 0, _, ws => .ok ws
   | f + 1, i, ws => do
-    let ch ← rd str (pos + m - 1 - i)
+    let ch ← rd str (pos + len - 1 - i)
     let ws1 ← if ch == oneCh then set N ws i true else .ok ws
     let ws2 ← if ch == zeroCh then set N ws1 i false else .ok ws1
-    fromStringLoop N str pos m zeroCh oneCh f (i + 1) ws2
+    fromStringLoop N str pos len zeroCh oneCh f (i + 1) ws2
 
 def NPOS : Nat := 2 ^ 64 - 1
 
-/-- `bitset(basic_string_view const& str, pos, n, zero, one) : bitset(0ULL)` -/
+/-- `bitset(basic_string_view const& str, pos, n, zero, one) : bitset(0ULL)`;
+    `len = min(min(n, str.size() - pos), size())` -/
 def fromString (N k : Nat) (str : List Nat) (pos n zeroCh oneCh : Nat) : Except Err (Words k) :=
   if pos > str.length then .error (.pre "bitset(string_view): pos <= str.size()")
   else do
     let ws0 ← fromUll N k 0
-    let len := min n (str.length - pos)
-    let m := min len N
-    fromStringLoop N str pos m zeroCh oneCh m 0 ws0
+    let len := min (min n (str.length - pos)) N
+    fromStringLoop N str pos len zeroCh oneCh len 0 ws0
 
 /-- `bitset(CharT const* str, n, zero, one)`: delegates to the view constructor with
     `n == npos ? string_view(str) : string_view(str, n)`, `pos = 0`.  `buf` = the characters before the
